@@ -127,7 +127,19 @@ def _all_settled(comp: Competition, u: UpdateSite, l: Term, r: Term, op: str) ->
     from .kinds import count_of
     lp = comp.loop
     pairs = [(l, r), (r, l)] if op == "!=" else [(r, l)]  # counter + 1 < n  is written  (1 + counter) < n
+    from .rules_heap import lin, lin_eq
     for n_t, cnt in pairs:
+        if n_t == ("const", 0):
+            # the count-down spelling: `remaining = n_nodes` before the loop, `remaining -= 1` per removal, leave at 0
+            for name, (init, end) in lp.carried.items():
+                phi = ("phi", lp.lid, name)
+                if count_of(init) == comp.graph and lin_eq(lin(end), {phi: 1, 1: -1}) and cnt == end:
+                    black = ("cmp", "!=", *sorted([K("BLACK"), ("idx", ("attr", comp.heap, "color"), u.q)], key=repr))
+                    hp, hq = comp.hcost(comp.p), comp.hcost(u.q)
+                    dearer = ("cmp", "<", hp, hq) if comp.policy == "min" else ("cmp", "<", hq, hp)
+                    fs = facts(tuple(u.inner_guards))
+                    return black in fs or dearer in fs
+            continue
         if count_of(n_t) != comp.graph:
             continue
         for name, (init, end) in lp.carried.items():
@@ -226,13 +238,20 @@ def _deferred_labels(w, comp) -> List[Event]:
     return []
 
 
+def _visible_causes(w) -> set:
+    """Reasons for a copy to be stale that the event stream shows in full: stores, and calls of helpers whose bodies were inlined
+    (their stores are in the stream too)."""
+    return {"store"} | {"call:" + fq.rpartition(".")[2].rpartition(":")[2] for fq in getattr(w, "inlined", [])}
+
+
 def _current_copy(w, comp, e, val) -> bool:
     """e stores a copy of `val` (a field of the removed node) taken earlier in the same removal, stale only on account of
     stores, none of which goes to `val` itself between the copy and e."""
     v = e.value
-    if not (v[0] == "old" and v[1] == val and w.old_cause.get(v[2], {"?"}) <= {"store"}):
+    if not (v[0] == "old" and v[1] == val and w.old_cause.get(v[2], {"?"}) <= _visible_causes(w)):
         return False
-    copies = [b.seq for b in comp.events if b.kind == "bind" and b.value == val and b.seq < e.seq]
+    copies = [b.seq for b in comp.events if b.kind == "bind" and b.seq < e.seq and b.value is not None
+              and (b.value == val or (b.value[0] == "tuple" and val in b.value[1]))]
     if not copies:
         return False
     return not any(s2.kind == "store" and s2.target == val and max(copies) < s2.seq < e.seq for s2 in comp.events)
@@ -673,6 +692,12 @@ def check_fmin_clustering(rep: Rep, pre: str, comp: Competition, label_field: st
             if gp == pos:
                 continue
             nm = classify_guard(comp, u, gd, pol, None)
+            same_label = ("cmp", "==", *sorted([comp.field(p, "label"), comp.field(q, "label")], key=repr))
+            if label_field == "predicted_label" and (gd if pol else mk_not(gd)) == same_label:
+                # label forcing written as a skip: a neighbour with another true label is not relaxed at all - what the
+                # override of its candidate by -FLOAT_MAX amounts to (nothing is strictly below it)
+                nm = "p!=q"
+                info.setdefault("skip_conditions", []).append(mk_not(same_label))
             names.append(nm)
             okg = nm in ("not-removed", "p!=q")
             rep.guard(pre + "CLU-guard", w, gd, u.event, okg,
@@ -694,9 +719,10 @@ def check_fmin_clustering(rep: Rep, pre: str, comp: Competition, label_field: st
                     return True
                 # a copy of a field of the removed node p taken once per removal: it is still current when nothing stores
                 # into that field of p between the copy and its use (stores to q do not alias: p is BLACK, q is not)
-                if not (v[0] == "old" and v[1] == val and w.old_cause.get(v[2], {"?"}) <= {"store"}):
+                if not (v[0] == "old" and v[1] == val and w.old_cause.get(v[2], {"?"}) <= _visible_causes(w)):
                     return False
-                copies = [b.seq for b in comp.events if b.kind == "bind" and b.value == val and b.seq < e.seq]
+                copies = [b.seq for b in comp.events if b.kind == "bind" and b.seq < e.seq and b.value is not None
+                          and (b.value == val or (b.value[0] == "tuple" and val in b.value[1]))]  # (also as a field of a record)
                 if not copies:
                     return False
                 return not any(s2.kind == "store" and s2.target == val and max(copies) < s2.seq < e.seq for s2 in comp.events)
